@@ -399,6 +399,9 @@ func redactPipelineStage(stage interface{}, redactFieldNames bool, keyPath []str
 						default:
 							newMap.Set(redactedKey, redactScalarValue([]string{k}, v, inSearchStage, false))
 						}
+					} else if exprDoc, ok := v.(*orderedmap.OrderedMap[string, any]); ok && fieldNameOrExpression(k) {
+						// an expression document in a field-name position carries literals of its own
+						newMap.Set(redactedKey, redactPipelineStage(exprDoc, redactFieldNames, newKeyPath, inSearchStage))
 					} else {
 						newMap.Set(redactedKey, v)
 					}
@@ -494,6 +497,9 @@ func redactPipelineStage(stage interface{}, redactFieldNames bool, keyPath []str
 										default:
 											newSubMap.Set(subK, redactScalarValue(append(newKeyPath, subK), subV, inSearchStage, false))
 										}
+									} else if exprDoc, ok := subV.(*orderedmap.OrderedMap[string, any]); ok && fieldNameOrExpression(subK) {
+										// an expression document in a field-name position carries literals of its own
+										newSubMap.Set(subK, redactPipelineStage(exprDoc, redactFieldNames, append(newKeyPath, subK), inSearchStage))
 									} else {
 										newSubMap.Set(subK, subV)
 									}
